@@ -10,6 +10,9 @@ VARIABLES blob
 tvars == <<obj, l, blob>>
 
 NoThrow(e) == Chk("no-throw", ~Has(e, "threw"))
+\* a valid image that cannot be restored breaks C09 and the family's own property ("x serialization points"): both are named
+NoThrowRestore(e) == IF ~Has(e, "threw") THEN TRUE
+                     ELSE PrintT(<<"REJECT", "C09:restore-no-throw", l>>) /\ PrintT(<<"REJECT", "C18:serialization-point-restorable", l>>) /\ FALSE
 Scal(e, o) == /\ Chk("n", e.n = o.n)
               /\ Chk("k", e.k = o.k)
               /\ Chk("cumulative-weight", e.cum = o.cumWt /\ e.cumRes = 0)
@@ -21,6 +24,9 @@ TNew == IsEvent("New") /\ LET e == Log[l] IN New(e.id, e.k) /\ Scal(e, obj'[e.id
 TNewInvalid == IsEvent("NewInvalid") /\ LET e == Log[l] IN Chk("invalid-k-refused", e.refused) /\ Refused /\ UNCHANGED blob
 TUpdate == IsEvent("Update") /\ LET e == Log[l] IN
   /\ NoThrow(e) /\ Update(e.id, e.x, e.w) /\ Scal(e, obj'[e.id]) /\ UNCHANGED blob
+\* an update with weight 0 is ignored: nothing observable changes (UpdateIgnored of the contract)
+TUpdateZero == IsEvent("UpdateZero") /\ LET e == Log[l] IN
+  /\ NoThrow(e) /\ Scal(e, obj[e.id]) /\ UpdateIgnored(e.id) /\ UNCHANGED blob
 TUpdateInvalid == IsEvent("UpdateInvalid") /\ LET e == Log[l] IN
   /\ Chk("invalid-weight-refused", e.refused) /\ Scal(e, obj[e.id]) /\ Refused /\ UNCHANGED blob
 TGetResult == IsEvent("GetResult") /\ LET e == Log[l]  o == obj[e.id]  S == ToSet(e.items) IN
@@ -52,7 +58,7 @@ TSer == IsEvent("Ser") /\ LET e == Log[l] IN
   /\ blob' = (e.blob :> [val |-> obj[e.id], img |-> e.img, size |-> e.size]) @@ blob
   /\ UNCHANGED obj
 TDeser == IsEvent("Deser") /\ LET e == Log[l]  b == blob[e.blob] IN
-  /\ NoThrow(e)
+  /\ NoThrowRestore(e)
   /\ Scal(e, b.val)
   /\ Chk("C09:consumed", e.consumed = b.size)
   /\ Chk("C09:reserialize", e.reimg = b.img)
@@ -92,7 +98,7 @@ TStat == IsEvent("Stat") /\ LET e == Log[l]
   /\ UNCHANGED <<obj, blob>>
 
 TInit == obj = <<>> /\ blob = <<>> /\ l = 1
-TNext == TBegin \/ TNew \/ TNewInvalid \/ TUpdate \/ TUpdateInvalid \/ TGetResult \/ TMerge \/ TCopy \/ TReset \/ TDrop
+TNext == TBegin \/ TNew \/ TNewInvalid \/ TUpdate \/ TUpdateZero \/ TUpdateInvalid \/ TGetResult \/ TMerge \/ TCopy \/ TReset \/ TDrop
          \/ TSer \/ TDeser \/ TDeserBad \/ TStat
 TSpec == TInit /\ [][TNext]_tvars
 ====
